@@ -44,6 +44,7 @@ fn run(enc: &'static encoding_rs::Encoding, input: &[u8], cuts: &[usize], hs: u8
         4 => settings.append_element_content_handler(text!("p", text_log)),
         6 => {
             // tag-name accessors: the lower-cased name is the ASCII-lower-cased DECODED name, for start and end tags
+            drop(text_log);
             let o3 = out.clone();
             settings.append_element_content_handler(element!("*", move |e| {
                 let (n, pc) = (e.tag_name(), e.tag_name_preserve_case());
